@@ -601,6 +601,9 @@ class _Gen:
         sinkm, sinkd = self.plant(f"zqvSink{t}q", "pkgvar", False, "main"), self.plant(f"zqvSinkD{t}q", "pkgvar", False, "dep")
         anchor = self.plant(f"ZqvAnchor{t}q", "const", True, "dep")
         atoi, itoa = self.plant(f"zqvAtoi{t}q", "func", False, "main"), self.plant(f"zqvItoa{t}q", "func", False, "main")
+        # one file per package without any call expression (and without comments): position.go gives it no /*line*/
+        # directive at all, so only the file-level "//line :1" header keeps its name out of the binary
+        nocm, nocd = self.plant(f"zqvNoCall{t}q", "func", False, "main"), self.plant(f"ZqvNoCallD{t}q", "func", True, "dep")
 
         def imports(key, fixed):
             items = list(fixed) + sorted(self.imports[key])
@@ -616,7 +619,8 @@ class _Gen:
                   + "".join(s + "\n" for s in self.decl[("main", "a")])
                   + "func main() {\n\tk := 3\n\tfor _, a := range os.Args[1:] {\n\t\tk = k*7 + " + atoi + "(a)\n\t}\n\tk %= 1000\n\ttotal := 0\n"
                     "\temit := func(id int, v int) {\n\t\ttotal += v * (id%17 + 1)\n\t\tos.Stdout.WriteString(\"c\" + " + itoa + "(id) + \"=\" + " + itoa + "(v) + \"\\n\")\n\t}\n"
-                  + calls + "\tos.Stdout.WriteString(\"total=\" + " + itoa + "(total) + \"\\n\")\n\tos.Exit(total % 113)\n}\n")
+                  + calls + f"\ttotal += {nocm}(k) + {D}.{nocd}(k)\n"
+                  + "\tos.Stdout.WriteString(\"total=\" + " + itoa + "(total) + \"\\n\")\n\tos.Exit(total % 113)\n}\n")
         fm = f"zqvfile_main_{t}"
         fd = f"zqvfile_dep_{t}"
         files = {f"{p.maindir}/{fm}_a.go": main_a}
@@ -627,6 +631,9 @@ class _Gen:
         files[f"{p.depdir}/{fd}_a.go"] = (f"// Package {D} zqvcomment{t}\npackage {D}\n\n" + imports(("dep", "a"), ['_ "unsafe"'] + ([f'_ "{p.basepath}"'] if self.decl[("base", "a")] else []))
                                            + f"const {anchor} = 1\n\nvar {sinkd} any\n\n//go:noinline\nfunc {keepd}(x any) {{ {sinkd} = x }}\n\n"
                                            + "".join(s + "\n" for s in self.decl[("dep", "a")]))
+        nocall_body = "(x int) int {\n\tif x > 3 {\n\t\treturn x*2 + 1\n\t}\n\treturn x + 1\n}\n"
+        files[f"{p.maindir}/{fm}_nocall.go"] = f"package main\n\n//go:noinline\nfunc {nocm}" + nocall_body
+        files[f"{p.depdir}/{fd}_nocall.go"] = f"package {D}\n\n//go:noinline\nfunc {nocd}" + nocall_body
         if self.decl[("base", "a")]:
             files[f"{p.depdir}/zqvbase{t}/zqvfile_base_{t}.go"] = f"package zqvbasepkg{t}\n\n" + "".join(s + "\n" for s in self.decl[("base", "a")])
             p.strings += [(f"zqvbase{t}", "dep", "importpath"), (f"zqvbasepkg{t}", "dep", "pkgname"), (f"zqvfile_base_{t}", "dep", "gofile")]
